@@ -14,22 +14,24 @@ import (
 )
 
 type Config struct {
-	InstrBudget     int64
-	LazyMake        bool
-	KeyEnumLimit    int
-	MaxFanout       int
-	Workers         int
-	SolverTimeoutMs int
-	HangIsViolation bool
-	Tier            int // 0 quick, 1 thorough
-	Seed            int64
-	Params          map[string]int64
-	MaxPaths        int64
-	ModulePath      string // functions under this path are reported as "encoded from /repo"
-	Trace           bool
-	ClockMode       string // "", "mono", "wall"
-	AllocLimit      int64  // max heap cells allocated per path (0 = none)
-	SecondSolver    string // thorough: cross-check final obligations
+	InstrBudget      int64
+	LazyMake         bool
+	KeyEnumLimit     int
+	MaxFanout        int
+	Workers          int
+	SolverTimeoutMs  int
+	HangIsViolation  bool
+	Tier             int // 0 quick, 1 thorough
+	Seed             int64
+	Params           map[string]int64
+	MaxPaths         int64
+	ModulePath       string // functions under this path are reported as "encoded from /repo"
+	Trace            bool
+	ClockMode        string // "", "mono", "wall"
+	AllocLimit       int64  // max heap cells allocated per path (0 = none)
+	SecondSolver     string // thorough: cross-check final obligations
+	ExploreSchedules bool   // scheduler choices at synchronisation points are explorer decisions
+	MaxPreemptions   int
 }
 
 type Decision struct {
@@ -185,6 +187,7 @@ type Worker struct {
 	lockHook    func(what string, mu *Value, fr *frame)
 	curFrame    *frame
 	mon         *monitor
+	preemptions int
 	fixed       []Draw
 	fixedPos    int
 	model       map[string]uint64 // a model of the current path condition (nil: unknown)
@@ -275,6 +278,7 @@ func (w *Worker) resetPath(prefix []Decision) {
 	w.pathState = map[string]interface{}{}
 	w.mon = nil
 	w.lockHook = nil
+	w.preemptions = 0
 	w.model = map[string]uint64{}
 	w.gs = nil
 	w.curG = nil
@@ -289,7 +293,6 @@ func (w *Worker) noteFunc(fn *ssa.Function) {
 }
 
 func (w *Worker) noteLoop(fr *frame) {}
-
 
 func (w *Worker) noteAlloc(fr *frame, instr ssa.Instruction) { w.noteAllocN(fr, instr, 1) }
 
